@@ -1,93 +1,82 @@
-(* Css/DeclSpec.v -- the property text of C08 as independent, declarative
-   definitions (not shaped like the code).
+(* Css/DeclSpec.v -- CSS Syntax 3 section 5.4.6 "consume a declaration", on the
+   component values that follow the declaration's name, and section 6 <an+b>.
+   Independent, executable transcription; no proofs.
 
-   * four-sides shorthands (CSS 2.1 8.3 / 8.4 / 8.5.1-3): 1 to 4 component
-     values are assigned to (top, right, bottom, left);
-   * spelling variants of a component-value list (CSS Syntax 3: identifiers,
-     units and function names are ASCII case-insensitive except custom
-     property names; comments and whitespace between component values carry
-     no meaning);
-   * var() substitution (CSS Variables 1, "substitute a var()"): a reference
-     is replaced by the tokens of the custom property, by its fallback when
-     the property is not defined, recursively;
-   * the dependency order that makes an environment acyclic. *)
-From Coq Require Import List NArith Bool.
-From Verif Require Import Css.DeclTok Css.Decl Css.VarSubst.
+   "While the next input token is a <whitespace-token>, consume the next input
+   token.  If the next input token is anything other than a <colon-token>, this is
+   a parse error.  Return nothing.  Otherwise, consume the next input token. [...]
+   As long as the next input token is anything other than an <EOF-token>, consume a
+   component value and append it to the declaration's value.  If the last two
+   non-<whitespace-token>s in the declaration's value are a <delim-token> with the
+   value "!" followed by an <ident-token> with a value that is an ASCII
+   case-insensitive match for "important", remove them from the declaration's value
+   and set the declaration's important flag to true."
+
+   Presentation choices of the implementation that are part of the statement:
+   comments kept as tokens count as whitespace; "remove them" also removes the
+   whitespace/comments between and after the two tokens (the value is what
+   precedes the "!"); leading whitespace after the colon is kept in the value. *)
+From Verif Require Import Css.Token.
+From Coq Require Import List NArith ZArith Bool.
 Import ListNotations.
+Open Scope N_scope.
 
-(* ---- four sides ---- *)
+Definition wsc (t : token) : bool :=
+  match t with TWhitespace _ _ | TComment _ _ => true | _ => false end.
 
-(* `vals` are the component values as written; (t, r, b, l) what CSS assigns *)
-Inductive four_sides_assign {A : Type} : list A -> A -> A -> A -> A -> Prop :=
-| FS1 a : four_sides_assign [a] a a a a                      (* one value: all four sides *)
-| FS2 a b : four_sides_assign [a; b] a b a b                 (* vertical | horizontal *)
-| FS3 a b c : four_sides_assign [a; b; c] a b c b            (* top | horizontal | bottom *)
-| FS4 a b c d : four_sides_assign [a; b; c; d] a b c d.      (* top right bottom left *)
-
-(* ---- spelling variants ---- *)
-
-Definition same_word (v w : str) : Prop := ascii_lower v = ascii_lower w.
-
-Inductive sv_tok : tok -> tok -> Prop :=
-| SvRefl t : sv_tok t t
-| SvIdent v w : is_custom_name v = false -> is_custom_name w = false -> same_word v w ->
-                sv_tok (TIdent v) (TIdent w)                         (* keyword case *)
-| SvDim q i u u' : same_word u u' -> sv_tok (TDim q i u) (TDim q i u')    (* unit case *)
-| SvFunc n n' a a' : same_word n n' -> sv_toks a a' -> sv_tok (TFunc n a) (TFunc n' a')
-| SvBlock k a a' : sv_toks a a' -> sv_tok (TBlock k a) (TBlock k a')
-with sv_toks : list tok -> list tok -> Prop :=
-| SvNil : sv_toks [] []
-| SvCons t t' r r' : sv_tok t t' -> sv_toks r r' -> sv_toks (t :: r) (t' :: r')
-| SvInsL t r r' : is_trivia t = true -> sv_toks r r' -> sv_toks (t :: r) r'   (* whitespace / comment on one side *)
-| SvInsR t r r' : is_trivia t = true -> sv_toks r r' -> sv_toks r (t :: r').
-
-Scheme sv_tok_ind2 := Induction for sv_tok Sort Prop
-  with sv_toks_ind2 := Induction for sv_toks Sort Prop.
-
-(* ---- var() substitution ---- *)
-
-(* `Subst e t out`: substituting the var() references of component value `t`
-   in environment `e` yields the component values `out`.  There is NO rule
-   for a reference that is (transitively) cyclic: such a value has no
-   substitution -- it is invalid at computed-value time. *)
-Inductive Subst (e : env) : tok -> list tok -> Prop :=
-| SubPlain t : has_var t = false -> Subst e t [t]
-| SubDefined name fargs v rest out :
-    has_var (TFunc name fargs) = true -> ascii_lower name = s_var ->
-    snd (parse_function (TFunc name fargs)) = TIdent v :: rest ->
-    lookup e v <> [] -> SubstL e (lookup e v) out ->
-    Subst e (TFunc name fargs) out
-| SubFallback name fargs v rest out :
-    has_var (TFunc name fargs) = true -> ascii_lower name = s_var ->
-    snd (parse_function (TFunc name fargs)) = TIdent v :: rest ->
-    lookup e v = [] -> SubstL e (var_fallback fargs) out ->
-    Subst e (TFunc name fargs) out
-| SubInside name fargs fargs' :
-    has_var (TFunc name fargs) = true -> ascii_lower name <> s_var ->
-    SubstL e fargs fargs' ->
-    Subst e (TFunc name fargs) [TFunc name fargs']
-with SubstL (e : env) : list tok -> list tok -> Prop :=
-| SubNil : SubstL e [] []
-| SubCons t r o1 o2 : Subst e t o1 -> SubstL e r o2 -> SubstL e (t :: r) (o1 ++ o2).
-
-Scheme Subst_ind2 := Induction for Subst Sort Prop
-  with SubstL_ind2 := Induction for SubstL Sort Prop.
-
-(* ---- acyclic environments ---- *)
-
-(* every dashed identifier occurring anywhere in a component value *)
-Fixpoint names_of (t : tok) : list str :=
-  match t with
-  | TIdent v => if is_custom_name v then [v] else []
-  | TFunc _ args | TBlock _ args =>
-      (fix go (l : list tok) : list str :=
-         match l with [] => [] | a :: r => names_of a ++ go r end) args
-  | _ => []
+Fixpoint drop_wsc (l : list token) : list token :=
+  match l with
+  | t :: r => if wsc t then drop_wsc r else l
+  | [] => []
   end.
 
-Definition names_of_list (l : list tok) : list str := flat_map names_of l.
+Definition delim_is (t : token) (c : N) : bool :=
+  match t with
+  | TLiteral _ [d] => d =? c
+  | _ => false
+  end.
 
-(* a rank that strictly decreases along every reference *)
-Definition acyclic (e : env) : Prop :=
-  exists rank : str -> nat,
-    forall n, forall m, In m (names_of_list (lookup e n)) -> rank m < rank n.
+Definition lower_ascii (c : N) : N := if (65 <=? c) && (c <=? 90) then c + 32 else c.
+Fixpoint codes_eqb (a b : list N) : bool :=
+  match a, b with
+  | [], [] => true
+  | x :: a', y :: b' => (x =? y) && codes_eqb a' b'
+  | _, _ => false
+  end.
+(* "important" *)
+Definition important_word : list N := [105; 109; 112; 111; 114; 116; 97; 110; 116].
+Definition ident_is_important (t : token) : bool :=
+  match t with
+  | TIdent _ v => codes_eqb (map lower_ascii v) important_word
+  | _ => false
+  end.
+
+(* value and important flag *)
+Definition spec_important (value : list token) : list token * bool :=
+  match drop_wsc (rev value) with
+  | i :: r1 =>
+      if ident_is_important i then
+        match drop_wsc r1 with
+        | b :: r2 => if delim_is b 33 then (rev r2, true) else (value, false)
+        | [] => (value, false)
+        end
+      else (value, false)
+  | [] => (value, false)
+  end.
+
+Inductive decl_result :=
+| DOk (name : str) (value : list token) (important : bool)
+| DError.
+
+(* `first` is the first non-whitespace token, `rest` what follows it *)
+Definition spec_declaration (first : token) (rest : list token) : decl_result :=
+  match first with
+  | TIdent _ name =>
+      match drop_wsc rest with
+      | c :: value =>
+          if delim_is c 58 then let '(v, imp) := spec_important value in DOk name v imp
+          else DError
+      | [] => DError
+      end
+  | _ => DError
+  end.
